@@ -28,7 +28,9 @@ CONFIGS = [('unset', None), ('ctor-name', 'y'), ('ctor-name', 'nope'),
 # '+own': the rule set arrives as a Rules object that carries a default rule
 # of its own (an allowing, defined name where there is one) - the enforcer's
 # configuration must still be what decides
-ROUTES = ('ctor', 'set_rules', 'file', 'ctor+own', 'set_rules+own')
+ROUTES = ('ctor', 'set_rules', 'file', 'ctor+own', 'set_rules+own',
+          # name x comes from a RuleDefault registered AFTER the first enforce
+          'file+late')
 
 
 def bound(tier):
@@ -88,6 +90,15 @@ def build(P, parse_rule, ruleset, cfg, route, w):
         w.write('policy.yaml', world.dumps_policy(ruleset))
         conf = world.new_conf(w.root, **overrides)
         return P.Enforcer(conf, **kw)
+    if route == 'file+late':
+        in_file = {k: v for k, v in ruleset.items() if k != 'x'}
+        w.write('policy.yaml', world.dumps_policy(in_file))
+        conf = world.new_conf(w.root, **overrides)
+        enf = P.Enforcer(conf, **kw)
+        enf.enforce('y', {}, {'roles': []})        # first load happens here
+        if 'x' in ruleset:
+            enf.register_default(P.RuleDefault('x', ruleset['x']))
+        return enf
     conf = world.new_conf(**overrides)
     own = None
     if route.endswith('+own'):
@@ -112,7 +123,7 @@ def run(job, seed):
         ruleset = {n: b for n, b in zip(NAMES, bodies) if b is not None}
         for cfg in CONFIGS:
             for route in ROUTES:
-                w = world.FileWorld() if route == 'file' else None
+                w = world.FileWorld() if route.startswith('file') else None
                 try:
                     enf = build(P, _parser.parse_rule, ruleset, cfg, route, w)
                     acc.case('table', bool(ruleset) and len(ruleset) < 3)
@@ -161,7 +172,7 @@ def run(job, seed):
 def replay(doc):
     from oslo_policy import _parser, policy as P
     c = doc['case']
-    w = world.FileWorld() if c['route'] == 'file' else None
+    w = world.FileWorld() if c['route'].startswith('file') else None
     try:
         enf = build(P, _parser.parse_rule, c['rules'], tuple(c['config']),
                     c['route'], w)
